@@ -369,6 +369,14 @@ class ProgGen(object):
         sp = ' ' if r.random() < 0.2 else ''
         if k < 0.3:
             return sp + r.choice(MARK)
+        if k < 0.4 and callees:
+            # an unbraced control sequence as the argument: the single token is passed on unexpanded (a parameterless macro, or \relax)
+            plain = [c for c in callees if c.defines is None and ((c.kind == 'def' and not c.items) or (c.kind == 'newcommand' and c.nargs == 0))]
+            if plain and r.random() < 0.8:
+                self.features.add('unbraced-macro-argument')
+                return sp + '\\' + r.choice(plain).name + ' '
+            self.features.add('relax-argument')
+            return sp + '\\relax '
         return sp + '{' + self.arg_content(nparams, depth, callees) + '}'
 
     # -- program ---------------------------------------------------------------------
